@@ -871,13 +871,12 @@ def check_ser(schema, root_ty, value, entry, res):
             # a position declared with dataclass A holds an instance of a strict subclass; A's function is called
             # statically, so hooks (and fields) the subclass adds are skipped
             kind = "codec-subclass-static-dispatch"
-    elif is_format_method(schema, entry) and _confined_sub(schema, root_ty, value, obs_e, exp_e, ctx_bad):
-        # to_msgpack / to_jsonb / to_toml: value.__mashumaro_to_dict_<fmt>__ of a subclass instance resolves through
-        # the MRO to the method compiled for the declared class (the subclass never got its own)
-        kind = "format-method-subclass-dispatch"
     else:
-        # union-member-flags: mixin union whose members' flag sets differ, instance of a member other than the
-        # first; the only difference is the context seen inside that instance's subtree
+        # mixin path.  One case may show several known deviations at once (e.g. a union whose members differ in the
+        # context option AND, through to_msgpack/to_jsonb/to_toml, a subclass instance rendered by its parent's
+        # method): every observed difference must be explained by one of them, each confined to its own subtrees.
+        # union-member-flags: union whose members' flag sets differ, instance of a member other than the first; the
+        # only difference is the context seen inside that instance's subtree
         aff = [v for ms, v in ups if len(ms) >= 2 and v[0] == "inst" and v[1] != ms[0]
                and len({ctx_on(schema, m) for m in ms}) > 1]
         # subclass-declared-class-flags: a position declared with a class that did not opt in holds an instance of a
@@ -885,32 +884,39 @@ def check_ser(schema, root_ty, value, entry, res):
         decl = []
         declared_positions(schema, root_ty, value, decl)
         aff2 = [v for c, v in decl if v[1] != c and ctx_on(schema, v[1]) and not ctx_on(schema, c)]
+        # format-method-subclass-dispatch: value.__mashumaro_to_dict_<fmt>__ of a subclass instance resolves through
+        # the MRO to the method compiled for the declared class: its events, context keyword and output are the parent's
+        fsub = []
+        if is_format_method(schema, entry):
+            subclass_positions(schema, root_ty, value, fsub)
 
-        def ctx_confined(vs):
-            uids = set()
+        def uids_of(vs):
+            u = set()
             for v in vs:
-                uids |= subtree_uids(v)
-            return bool(ctx_bad) and all(u in uids and code == "N" for _, _, u, code in ctx_bad)
-        if order_ok and out_ok and res["ok"]:
-            if aff and ctx_confined(aff):
+                u |= subtree_uids(v)
+            return u
+        u_union, u_decl, u_fmt = uids_of(aff), uids_of(aff2), uids_of(fsub)
+        ev_ok = [e for e in obs_e if e[2] not in u_fmt] == [e for e in exp_e if e[2] not in u_fmt]
+        if ev_ok and not order_ok:
+            # the traces differ only inside the format-method subtrees: the context delivered OUTSIDE them is still checked
+            lo = [e for e in log if e[2] not in u_fmt]
+            le = [e for e in exp if e[2] not in u_fmt]
+            for (k, c, u, code), (_, _, _, want) in zip(lo, le):
+                if want == "T" and code != "T":
+                    ctx_bad.append((k, c, u, code))
+        ctx_ok = all(u in u_fmt or (code == "N" and u in (u_union | u_decl)) for _, _, u, code in ctx_bad)
+        fmt_needed = (not order_ok) or (not out_ok) or (not res["ok"]) \
+            or any(not (code == "N" and u in (u_union | u_decl)) for _, _, u, code in ctx_bad)
+        if ev_ok and ctx_ok:
+            if fmt_needed:
+                if fsub:
+                    kind = "format-method-subclass-dispatch"
+            elif ctx_bad and all(u in u_union for _, _, u, _ in ctx_bad):
                 kind = "union-member-flags"
-            elif aff2 and ctx_confined(aff2 + aff):
+            elif ctx_bad:
                 kind = "subclass-declared-class-flags"
     sig["kind"] = kind
     return "; ".join(problems)[:900], sig
-
-
-def _confined_sub(schema, root_ty, value, obs_e, exp_e, ctx_bad):
-    sub = []
-    subclass_positions(schema, root_ty, value, sub)
-    if not sub:
-        return False
-    uids = set()
-    for v in sub:
-        uids |= subtree_uids(v)
-    if any(u not in uids for _, _, u, _ in ctx_bad):
-        return False      # (the declared class's method also decides whether the hooks get the context keyword)
-    return [e for e in obs_e if e[2] not in uids] == [e for e in exp_e if e[2] not in uids]
 
 
 def _drop_none(x):
